@@ -416,7 +416,7 @@ theorem trans_fall (c : Chart) (tp0 : List St) (mx : Nat) (T S : St) (k : Ctx) (
 
 theorem climb_fall (c : Chart) (goal : St) : ∀ (x : St) (tp : List St) (mx ip : Nat) (k : Ctx),
     climb c goal x tp mx ip k = climb c.noFall goal x tp mx ip k ∨
-    (¬ Clear c x ∧ ∃ k', climb c goal x tp mx ip k = .top k') := by
+    (¬ Clear c x ∧ ∃ k', climb c goal x tp mx ip k = .none k') := by
   intro x
   induction x with
   | nil => intro tp mx ip k; left; simp [climb]
@@ -459,9 +459,11 @@ theorem callInit_true {c : Chart} {t : St} {k k1 : Ctx} (h : callInit c t k = (t
 def drillStep (c : Chart) (g : Cfg) (fuel : Nat) (t tgt : St) (tp : List St) (mx : Nat) (k1 : Ctx) :
     Outcome (St × Ctx) :=
   if g.drillGuard && tgt = t then .raise k1.log else
+  if g.superGuard && noSuper c tgt then .raise (probeNone tgt k1).log else
   match climb c t (probeAny c tgt k1).temp (tp.set 0 tgt) mx 0 (probeAny c tgt k1) with
   | .top k3 => if g.drillGuard then .raise k3.log else .diverge k3.log
   | .index k3 => .raise k3.log
+  | .none k3 => if g.superGuard || g.drillGuard then .raise k3.log else .diverge k3.log
   | .done ip tp2 mx2 k3 => drill c g fuel tgt tp2 mx2 (enterDown tp2 ip { k3 with temp := tgt })
 
 theorem drill_succ (c : Chart) (g : Cfg) (fuel : Nat) (t : St) (tp : List St) (mx : Nat) (k : Ctx) :
@@ -501,11 +503,16 @@ theorem drill_fall (c : Chart) (g : Cfg) (hg : g.drillGuard = true) :
         unfold drillStep
         by_cases he : tgt = t
         · left; simp [hg, he]
-        · simp only [hg, Bool.true_and, decide_eq_true_eq, he, if_false, if_true, probeAny_noFall]
+        · simp only [hg, Bool.true_and, decide_eq_true_eq, he, if_false, if_true, probeAny_noFall,
+            noSuper_noFall, Bool.and_false, Bool.false_eq_true, Bool.or_true]
           cases hn : noSuper c tgt with
           | true =>
             right
             refine ⟨⟨tgt, by simp [hch], not_clear_of_noSuper hn⟩, ?_⟩
+            cases hsg : g.superGuard with
+            | true => exact ⟨(probeNone tgt k1).log, by simp⟩
+            | false =>
+            simp only [Bool.false_and, Bool.false_eq_true, if_false]
             have hp : probeAny c tgt k1 = probeNone tgt k1 := by simp [probeAny, hn]
             rw [hp]
             obtain ⟨a, p, rfl⟩ : ∃ a p, tgt = a :: p := by
@@ -520,11 +527,13 @@ theorem drill_fall (c : Chart) (g : Cfg) (hg : g.drillGuard = true) :
             | some r => simp only [hfa, if_true]; exact ⟨_, rfl⟩
           | false =>
             rw [probeAny_clear hn]
+            simp only [Bool.and_false, Bool.false_eq_true, if_false]
             rcases climb_fall c t (probe tgt k1).temp (tp.set 0 tgt) mx 0 (probe tgt k1) with h | ⟨h1, k', h2⟩
             · rw [h]
               cases climb c.noFall t (probe tgt k1).temp (tp.set 0 tgt) mx 0 (probe tgt k1) with
               | top k3 => left; rfl
               | index k3 => left; rfl
+              | none k3 => left; rfl
               | done ip tp2 mx2 k3 =>
                 rcases ih tgt tp2 mx2 (enterDown tp2 ip { k3 with temp := tgt }) with h' | ⟨⟨x, hx1, hx2⟩, h2'⟩
                 · exact Or.inl h'
@@ -538,9 +547,9 @@ theorem drill_fall (c : Chart) (g : Cfg) (hg : g.drillGuard = true) :
 
 /-! ### `init()` -/
 
-theorem climbInit_fall (c : Chart) (outer : St) : ∀ (x : St) (tp : List St) (mx idx : Nat) (k : Ctx),
-    climbInit c outer x tp mx idx k = climbInit c.noFall outer x tp mx idx k ∨
-    (¬ Clear c x ∧ ∃ k', climbInit c outer x tp mx idx k = .fail k') := by
+theorem climbInit_fall (c : Chart) (g : Cfg) (outer : St) : ∀ (x : St) (tp : List St) (mx idx : Nat) (k : Ctx),
+    climbInit c g outer x tp mx idx k = climbInit c.noFall g outer x tp mx idx k ∨
+    (¬ Clear c x ∧ ∃ k', climbInit c g outer x tp mx idx k = .fail k') := by
   intro x
   induction x with
   | nil => intro tp mx idx k; left; simp [climbInit]
@@ -554,18 +563,20 @@ theorem climbInit_fall (c : Chart) (outer : St) : ∀ (x : St) (tp : List St) (m
         refine ⟨not_clear_of_fall hfa, ?_⟩
         rw [climbInit]; simp only [ho, if_false, hfa, if_true]
         split
-        · split <;> exact ⟨_, rfl⟩
         · exact ⟨_, rfl⟩
+        · split
+          · split <;> exact ⟨_, rfl⟩
+          · exact ⟨_, rfl⟩
       | false =>
         cases hs : store tp mx (idx + 1) p with
         | none => left; simp [climbInit, ho, hs, hfa]
         | some r =>
           obtain ⟨tp1, mx1⟩ := r
-          have e1 : climbInit c outer (a :: p) tp mx idx k =
-              climbInit c outer p tp1 mx1 (idx + 1) (probe (a :: p) k) := by
+          have e1 : climbInit c g outer (a :: p) tp mx idx k =
+              climbInit c g outer p tp1 mx1 (idx + 1) (probe (a :: p) k) := by
             rw [climbInit]; simp only [ho, if_false, hs, hfa, Bool.false_eq_true]
-          have e2 : climbInit c.noFall outer (a :: p) tp mx idx k =
-              climbInit c.noFall outer p tp1 mx1 (idx + 1) (probe (a :: p) k) := by
+          have e2 : climbInit c.noFall g outer (a :: p) tp mx idx k =
+              climbInit c.noFall g outer p tp1 mx1 (idx + 1) (probe (a :: p) k) := by
             rw [climbInit]; simp only [ho, if_false, hs, noFall_fall, Bool.false_eq_true]
           rw [e1, e2]
           rcases ih tp1 mx1 (idx + 1) (probe (a :: p) k) with h | ⟨h1, h2⟩
@@ -582,14 +593,14 @@ def initStep (c : Chart) (g : Cfg) (fuel : Nat) (tgt : St) (idx : Nat) (tp1 : Li
 theorem initLoop_succ (c : Chart) (g : Cfg) (fuel : Nat) (outer : St) (tp : List St) (mx : Nat) (k : Ctx) :
     initLoop c g (fuel + 1) outer tp mx k =
       if k.temp = outer then (if g.initGuard then .raise k.log else .diverge k.log) else
-      match climbInit c outer k.temp (tp.set 0 k.temp) mx 0 k with
+      match climbInit c g outer k.temp (tp.set 0 k.temp) mx 0 k with
       | .fail k1 => .raise k1.log
       | .done idx tp1 mx1 k1 => initStep c g fuel k.temp idx tp1 mx1 k1 := by
   rw [initLoop]
   by_cases h : k.temp = outer
   · simp only [h, if_true]
   · simp only [h, if_false]
-    cases climbInit c outer k.temp (tp.set 0 k.temp) mx 0 k with
+    cases climbInit c g outer k.temp (tp.set 0 k.temp) mx 0 k with
     | fail k1 => rfl
     | done idx tp1 mx1 k1 =>
       simp only [initStep]
@@ -607,9 +618,9 @@ theorem initLoop_fall (c : Chart) (g : Cfg) : ∀ (fuel : Nat) (outer : St) (tp 
     by_cases ho : k.temp = outer
     · left; simp only [ho, if_true]
     · simp only [ho, if_false]
-      rcases climbInit_fall c outer k.temp (tp.set 0 k.temp) mx 0 k with h | ⟨h1, k', h2⟩
+      rcases climbInit_fall c g outer k.temp (tp.set 0 k.temp) mx 0 k with h | ⟨h1, k', h2⟩
       · rw [h]
-        cases climbInit c.noFall outer k.temp (tp.set 0 k.temp) mx 0 k with
+        cases climbInit c.noFall g outer k.temp (tp.set 0 k.temp) mx 0 k with
         | fail k1 => left; rfl
         | done idx tp1 mx1 k1 =>
           simp only [initStep, callInit_noFall]
